@@ -334,7 +334,9 @@ func posOfVoteproof(vp base.Voteproof) pos {
 func TestC06(t *testing.T) {
 	r := vlib.Start(t, "C06", vlib.LevelExploration)
 	defer r.Finish()
-	r.SetRule("case = one attempted update (current position, candidate) at one of four boundaries: pure LastPoint.Before/IsNewBallot, pure IsNewVoteproofbyPoint, a real Ballotbox.SetLastPoint, a real LastVoteproofsHandler.Set with real voteproof objects (position = Last().Cap()); positions (height in 33..35, round 0..2, INIT/ACCEPT, majority, suffrage-confirm for INIT); all histories of accepted updates up to the stated depth from every start incl. the zero point, plus random walks; concurrent phase: 8 goroutines Set real voteproofs / SetLastPoint of 8 heights on one handler / box while they and 2 observers sample the position (height never decreases per goroutine, no step back without a suffrage-confirm update, final height = greatest offered); distinct = (boundary, current, candidate, accepted)")
+	r.SetRule("case = one attempted update (current position, candidate) at one of four boundaries: pure LastPoint.Before/IsNewBallot, pure IsNewVoteproofbyPoint, a real Ballotbox.SetLastPoint, a real LastVoteproofsHandler.Set with real voteproof objects (position = Last().Cap()); positions (height in 33..35, round 0..2, INIT/ACCEPT, majority, suffrage-confirm for INIT); all histories of accepted updates up to the stated depth from every start incl. the zero point, plus random walks; concurrent phase: 8 goroutines Set real voteproofs / SetLastPoint of 8 heights on one handler / box while they and 2 observers sample the position (height never decreases per goroutine, no step back without a suffrage-confirm update, final height = greatest offered); distinct = (boundary, current, candidate, accepted); counting boundary (Ballotbox.count / Ballotbox.Vote): a real Ballotbox of a 4-node suffrage (threshold 67, local node a member) is driven through histories of real signed ballots, each checked with IsValid and carrying the voteproof IsValid asks for — INIT (with the ACCEPT majority of the previous height, or the INIT / ACCEPT draw of the previous round), INIT with an expel, suffrage-confirm (with the ordinary INIT majority expel voteproof of its point, or of an earlier round / lower height with the same previous block and proposal), ACCEPT and ACCEPT with an expel (with the ordinary, expel or suffrage-confirm INIT majority) — a part of the ballots carrying these voteproofs made under a valid threshold below the box's (60 < 67: the box counts the ballot and leaves the voteproof) — (a) every sequence of stage outcomes (INIT majority / expel majority / draw, suffrage-confirm majority / below threshold, the suffrage-confirm majority of the previous round arriving late, ACCEPT majority / draw) up to the stated depth from height 33, ballots of the voters in random order with Count() in between, followed in random order by one ballot of every kind and embedded-voteproof flavour for every round of the reached height and the height below (late ballots), (b) random walks over the same outcomes plus below-threshold stages with random ballots of the heights h-1..h+1 between the ballots; after every Vote (once the goroutines it started are gone) and every Count, Ballotbox.LastPoint() is read and the statement is applied to the sequence of positions; a ballot for a height below the position must not be voted (probed after every move); distinct there = (position relative to the ballot, ballot kind, variant, embedded voteproof, voted, moved)")
+	r.Assume("counting boundary: the position is what Ballotbox.LastPoint() returns; re-taking a position after the permitted suffrage-confirm step back, seen through counting, is the behaviour recorded for Ballotbox.SetLastPoint (the count stores through it) and is reported under those two signatures; every other alarm of that boundary carries Ballotbox.count / Ballotbox.Vote and says whether a suffrage-confirm result is in the history")
+	r.Assume("counting boundary: the suffrage is known for every height, the ticker daemon is not started and the hold of an INIT draw with uncounted expels is never released (countAfter 24h), so every position move happens inside a Vote / Count step of the history")
 	r.Assume("LastVoteproofsHandler.ForceSetLast is a deliberate override and is not driven")
 	r.Assume("a suffrage-confirm candidate always has stage INIT (NewLastPoint refuses anything else; suffrage-confirm facts are INIT facts)")
 	r.Assume("LastVoteproofsHandler.Set returning true for a voteproof that only fills a missing slot (fillMissing, e.g. the previous height's ACCEPT) is not an accepted position: the position judged against is Last().Cap(); rejection of a lower height = IsNew false and Cap unchanged")
@@ -514,6 +516,9 @@ func TestC06(t *testing.T) {
 	})
 
 	lap("box-walks")
+	// ---- (1b) positions the real Ballotbox takes by itself when it counts ---
+	countPhase(r, &mu, all)
+	lap("box-count-histories")
 	// ---- (3) real LastVoteproofsHandler with real voteproof objects -------
 	const hForm = "LastVoteproofsHandler.Set"
 	vdom := domain()
